@@ -212,11 +212,15 @@ class Read:
 
 
 class KindWalker:
-    def __init__(self, all_kinds, fold, token_exprs=None):
+    def __init__(self, all_kinds, fold, token_exprs=None, functions=None,
+                 depth=0):
         self.all = frozenset(all_kinds)
         self.fold = fold  # callable(ast expr) -> python value (or raises)
         self.reads: list[Read] = []
         self.fn = None
+        self.functions = functions or {}  # module-local helpers to inline
+        self.depth = depth
+        self.inlined: set[str] = set()
 
     # -- public -----------------------------------------------------------------
     def run(self, fn: ast.FunctionDef):
@@ -420,6 +424,24 @@ class KindWalker:
                 inner = self.kill(inner, a.arg)
             self.expr(node.body, inner)
             return
+        if isinstance(node, ast.Call) and isinstance(node.func, ast.Name) \
+                and node.func.id in self.functions and self.depth < 2 \
+                and node.func.id != getattr(self.fn, "name", None):
+            # module-local helper: walk it with the caller's kinds for the
+            # token arguments ("extract function" refactorings)
+            callee = self.functions[node.func.id]
+            params = [a.arg for a in callee.args.args]
+            cenv = {}
+            for i, a in enumerate(node.args):
+                if i < len(params):
+                    cenv[params[i]] = self.kinds_of(env, ast.unparse(a))
+            sub = KindWalker(self.all, self.fold, functions=self.functions,
+                             depth=self.depth + 1)
+            sub.fn = callee
+            sub.reads = self.reads
+            sub.inlined = self.inlined
+            self.inlined.add(callee.name)
+            sub.block(callee.body, cenv)
         if isinstance(node, ast.Attribute) and node.attr == "value" \
                 and isinstance(node.ctx, ast.Load):
             base = ast.unparse(node.value)
